@@ -101,6 +101,8 @@ func volWanted(only string, table, op int) bool {
 			return (op >= 0x40 && op < 0x80 && op&7 == 4) || op == 0x67 || op == 0x6f
 		}
 		return true // CB, DDCB, FDCB
+	case "blk": // block transfer / search / I/O
+		return table == 2 && op >= 0xa0 && op < 0xc0 && op&7 < 4
 	case "a16": // 16-bit arithmetic
 		switch table {
 		case 0, 3, 4:
@@ -118,7 +120,7 @@ func cmdVol1(args []string) {
 	out := fs.String("out", "", "output directory")
 	shards := fs.Int("shards", 16, "shards")
 	n := fs.Int("n", 2, "Steps per decode point")
-	only := fs.String("only", "all", "all | alu | a16")
+	only := fs.String("only", "all", "all | alu | a16 | blk")
 	seed := fs.Int64("seed", 1, "seed")
 	fs.Parse(args)
 	var dps []int
